@@ -16,7 +16,10 @@ Stages (see run()):
   toolchain files     (spec['tc']) the project is configured with --toolchain FILE; edit = 'toolchain' rewrites that file (an
                       explicit regeneration input that no build script names); in oracle:script_raise the edited toolchain
                       file raises, and every failing history is continued: the mistake is corrected and the next make must
-                      succeed with files equal to a fresh configure of the corrected tree
+                      succeed with files equal to a fresh configure of the corrected tree; the toolchain file may set an
+                      additional variable (spec['tc_extra']: only before the edit, only after it, always), a failing history
+                      may edit the toolchain file AND break build.bfg / a rule emission (the attempt then fails after the
+                      environment was saved), and its correction may take the toolchain edit back (spec['tc_backout'])
   oracle:regen_inputs every recorded project (build directory after the regeneration and the fresh configure): the inputs of
                       the regeneration step persisted in .bfg_find_cache (what `regenerate --lazy` compares) are the same
                       set as the prerequisites of the build file's regeneration rule (what make / ninja compares)
@@ -38,7 +41,8 @@ from . import common, project, regenvariant
 
 LEVEL = 'proof'
 RULE = ('projects are drawn from the feature grid find_files yes/no x 0..2 pkg_config calls (2 immediate files each) x '
-        'install/test rules x compdb on/off x configured with --toolchain FILE or not x edit kind (new file in a watched '
+        'install/test rules x compdb on/off x configured with --toolchain FILE or not (the file sets an additional '
+        'variable CPPFLAGS / LDLIBS / LDFLAGS / a longer CFLAGS never / only before the edit / only after it / always) x edit kind (new file in a watched '
         'directory / build.bfg edited / both / only the toolchain file edited) x '
         'how the regeneration is started (make-triggered regenerate --lazy, bfg9000 regenerate, configure-into over the '
         'existing build directory, also with OTHER configure options and an unedited tree, followed up by regenerate --lazy run '
@@ -47,7 +51,9 @@ RULE = ('projects are drawn from the feature grid find_files yes/no x 0..2 pkg_c
         'the variants kill/raise x before/after; a case = (project, n, variant, follow-up index); non-trivial when the run '
         'was really cut (fault fired) and distinct by (project features, abstract crash state, follow-up index); scripts, rule '
         'emissions and toolchain files that raise are continued by correcting the mistake and regenerating again (make, or '
-        'regenerate --lazy by hand and then make), compared with a fresh configure of the corrected tree; for every recorded '
+        'regenerate --lazy by hand and then make), compared with a fresh configure of the corrected tree; failing histories '
+        'with two edits at once (toolchain file gains or loses the variable while build.bfg / a rule emission fails after the '
+        'environment was saved) whose correction keeps the toolchain edit or takes it back; for every recorded '
         'project the inputs persisted in .bfg_find_cache are compared with the prerequisites of the regeneration rule')
 TRUSTED = ('the history `options`: which options a build directory holds is read off the prefix saved in .bfg_environ',
            'GNU Make 4.3 as the consumer of the Makefile (real tool, run on every crash state)',
@@ -103,16 +109,37 @@ def bfg_text(spec, v2):
     return '\n'.join(L) + '\n'
 
 
-def tc_text(gen, broken=False):
-    """The toolchain file (configure --toolchain FILE): generation `gen` of its options; broken: it raises."""
-    return "compile_options(['-DTC=%d'], 'c')\n%s" % (gen, "raise RuntimeError('C10 injected toolchain failure')\n" if broken else '')
+TC_VARS = {'CPPFLAGS': '-DC10_TC_EXTRA=1', 'LDLIBS': '-lm', 'LDFLAGS': '-Wl,--as-needed', 'CFLAGS': None}
+
+
+def tc_text(gen, broken=False, extra=None):
+    """The toolchain file (configure --toolchain FILE): generation `gen` of its options; extra: a variable it sets in
+    addition (environ[NAME] = ...; 'CFLAGS': a second compile option, i.e. a longer value of the variable it always sets);
+    broken: it raises."""
+    t = "compile_options(['-DTC=%d'%s], 'c')\n" % (gen, ", '-DC10_TC_EXTRA=2'" if extra == 'CFLAGS' else '')
+    if extra and extra != 'CFLAGS':
+        t += "environ[%r] = %r\n" % (extra, TC_VARS[extra])
+    return t + ("raise RuntimeError('C10 injected toolchain failure')\n" if broken else '')
+
+
+def tc_state(spec, stage):
+    """(gen, broken, extra) of the toolchain file at stage 'v1' | 'v2' (after the edit) | 'final' (after the correction of a
+    failing history).  spec['tc_extra']: None | 'v1' (only the first version sets the additional variable: the edit drops
+    the line) | 'v2' (the edit adds the line) | 'both'; spec['tc_var'] names the variable; spec['tc_backout']: the
+    correction of a failing history takes the whole toolchain edit back instead of repairing it."""
+    when = spec.get('tc_extra')
+    var = spec.get('tc_var', 'CPPFLAGS')
+    if stage == 'v1' or (stage == 'final' and spec.get('tc_backout')):
+        return (1, False, var if when in ('v1', 'both') else None)
+    return (2 if spec['edit'] == 'toolchain' else 1, stage == 'v2' and spec.get('script_raise') == 'toolchain',
+            var if when in ('v2', 'both') else None)
 
 
 def v1_tree(spec):
     t = {'build.bfg': bfg_text(spec, False), 'src/a.c': 'int a(){return 1;}\n', 'main.c': 'int main(){return 0;}\n',
          'include/a.h': '#define A\n', 'extra.c': 'int main(){return 1;}\n'}
     if spec.get('tc'):
-        t['tc.bfg'] = tc_text(1)
+        t['tc.bfg'] = tc_text(*tc_state(spec, 'v1'))
     return t
 
 
@@ -120,8 +147,10 @@ def apply_edit(spec, src):
     files = {}
     if spec['edit'] == 'options':
         return              # the tree stays as it is; the command line of the second configure differs
+    if spec.get('tc') and tc_state(spec, 'v2') != tc_state(spec, 'v1'):
+        files['tc.bfg'] = tc_text(*tc_state(spec, 'v2'))
     if spec['edit'] == 'toolchain':
-        files['tc.bfg'] = tc_text(2, broken=spec.get('script_raise') == 'toolchain')
+        pass
     elif spec['edit'] == 'touch':
         files['src/NOTES.txt'] = 'not matched by any pattern\n'
     elif spec['edit'] in ('dir', 'both') or not spec['find']:
@@ -133,17 +162,21 @@ def apply_edit(spec, src):
 
 def apply_correction(spec, src):
     """The mistake of a history whose regeneration raises is corrected: the edited file as it was meant."""
-    if spec.get('script_raise') == 'toolchain':
-        project.write_tree(src, {'tc.bfg': tc_text(2)})
-    else:
-        project.write_tree(src, {'build.bfg': bfg_text(dict(spec, script_raise=None), True)})
+    files = {}
+    if spec.get('tc') and tc_state(spec, 'final') != tc_state(spec, 'v2'):
+        files['tc.bfg'] = tc_text(*tc_state(spec, 'final'))
+    if spec.get('script_raise') != 'toolchain':
+        files['build.bfg'] = bfg_text(dict(spec, script_raise=None), True)
+    project.write_tree(src, files)
 
 
 def spec_key(spec):
     return 'find=%d pkg=%d inst=%d compdb=%d edit=%s runner=%s%s%s' % (
         spec['find'], spec['pkg'], spec['inst'], spec['compdb'], spec['edit'], spec['runner'],
         ' followup=' + spec['followup'] if spec.get('followup', 'make') != 'make' else '',
-        ' toolchain-file' if spec.get('tc') else '')
+        (' toolchain-file' + (' extra-variable(%s)=%s' % (spec.get('tc_var', 'CPPFLAGS'), spec['tc_extra'])
+                              if spec.get('tc_extra') else '')
+         + (' toolchain-edit-backed-out' if spec.get('tc_backout') else '')) if spec.get('tc') else '')
 
 
 def gen_specs(rng, n, fixed=()):
@@ -158,6 +191,9 @@ def gen_specs(rng, n, fixed=()):
             s['tc'] = True
             if rng.random() < 0.5:
                 s['edit'] = 'toolchain'
+            # the additional variable of the toolchain file: never / dropped by the edit / added by the edit / always
+            s['tc_extra'] = rng.choice([None, 'v1', 'v1', 'v2', 'both'])
+            s['tc_var'] = rng.choice(sorted(TC_VARS))
         if spec_key(s) not in [spec_key(x) for x in specs]:
             specs.append(s)
     return specs
@@ -659,7 +695,7 @@ def stage_trace(rep, specs):
     dis = []
     traces = {}
     calls, raws = [], []
-    with concurrent.futures.ProcessPoolExecutor(max_workers=12) as ex:
+    with concurrent.futures.ProcessPoolExecutor(max_workers=16) as ex:
         futs = [ex.submit(trace_one, s) for s in specs]
         outs = [f.result() for f in futs]
     for spec, o in zip(specs, outs):
@@ -845,8 +881,25 @@ def stage_script_raise(rep, rng, thorough):
         specs.append({'find': find, 'pkg': rng.choice([0, 1, 2]), 'inst': rng.random() < 0.6, 'compdb': True,
                       'edit': 'toolchain', 'runner': runner, 'backend': 'make', 'script_raise': 'toolchain', 'tc': True,
                       'followup': followup})
+    # two edits at once: the toolchain file gains / loses an additional variable (or changes a value) while build.bfg or a
+    # rule emission fails - the attempt fails AFTER the environment was saved; the correction repairs the script and either
+    # keeps the toolchain edit or takes it back (the variable line is gone again); then make / regenerate --lazy / regenerate
+    combos = [('script', 'make', 'make', 'v2', True), ('emit', 'regen', 'lazy', 'v2', True),
+              ('script', 'regen_lazy', 'make', 'v1', True), ('emit', 'make', 'make', 'v2', False)]
+    if thorough:
+        combos += [(how, runner, fu, ex, bo) for how in ('script', 'emit') for runner in ('make', 'regen', 'configure')
+                   for fu in ('make', 'lazy') for ex in ('v1', 'v2', 'both') for bo in (True, False)][::3]
+    for how, runner, followup, extra, backout in combos:
+        specs.append({'find': rng.random() < 0.7, 'pkg': rng.choice([0, 1, 2]), 'inst': rng.random() < 0.6, 'compdb': True,
+                      'edit': rng.choice(['script', 'toolchain']), 'runner': runner, 'backend': 'make', 'script_raise': how,
+                      'tc': True, 'followup': followup, 'tc_extra': extra,
+                      'tc_var': rng.choice(sorted(v for v in TC_VARS if TC_VARS[v])), 'tc_backout': backout})
+    # the edited toolchain file itself raises after setting the additional variable; the edit is taken back
+    specs.append({'find': True, 'pkg': 1, 'inst': True, 'compdb': True, 'edit': 'toolchain', 'runner': 'make', 'backend': 'make',
+                  'script_raise': 'toolchain', 'tc': True, 'followup': 'make', 'tc_extra': 'v2',
+                  'tc_var': rng.choice(sorted(TC_VARS)), 'tc_backout': True})
     bad, dis = 0, []
-    with concurrent.futures.ProcessPoolExecutor(max_workers=8) as ex:
+    with concurrent.futures.ProcessPoolExecutor(max_workers=12) as ex:
         outs = list(ex.map(raise_one, specs))
     for spec, o in zip(specs, outs):
         key = spec_key(spec) + ' raise=' + spec['script_raise']
@@ -913,6 +966,13 @@ TRACE_ONLY = (
     {'find': True, 'pkg': 1, 'inst': True, 'compdb': True, 'edit': 'toolchain', 'runner': 'make', 'backend': 'make', 'tc': True},
     {'find': True, 'pkg': 0, 'inst': False, 'compdb': True, 'edit': 'toolchain', 'runner': 'regen_lazy', 'backend': 'ninja',
      'tc': True},
+    # the toolchain edit drops / adds a whole variable (a line environ[NAME] = ...), alone and together with a script edit
+    {'find': True, 'pkg': 1, 'inst': True, 'compdb': True, 'edit': 'toolchain', 'runner': 'make', 'backend': 'make', 'tc': True,
+     'tc_extra': 'v1', 'tc_var': 'CPPFLAGS'},
+    {'find': False, 'pkg': 0, 'inst': True, 'compdb': True, 'edit': 'toolchain', 'runner': 'regen', 'backend': 'make', 'tc': True,
+     'tc_extra': 'v2', 'tc_var': 'LDLIBS'},
+    {'find': True, 'pkg': 1, 'inst': False, 'compdb': True, 'edit': 'both', 'runner': 'regen_lazy', 'backend': 'ninja', 'tc': True,
+     'tc_extra': 'v1', 'tc_var': 'LDFLAGS'},
 )
 
 
